@@ -165,6 +165,8 @@ def symbolsSpec (s : SymSpec) (line ans : String) : SymSpec × String :=
         else if c then ({ s with lastFailExt := (ans.splitOn "ext:").length > 1 }, "holds")
         else ({ s with good := s.good ++ [f.id], lastFailExt := false }, "holds")
     | none => (s, "skip")
+  | ["race"] =>
+    (s, if ans == "ok" then "holds" else s!"fails concurrent-import-lost-symbols {ans}")
   | ["dump"] =>
     let expect := showDump (naiveLookup s) (naiveLookupExt s) s.defs
     if ans == expect then (s, "holds")
